@@ -485,6 +485,19 @@ func (c *C08) roleAndFrame(t *TxCtx, m sdk.Msg, resp interface{}) (roleErr strin
 	return roleErr, fr, true
 }
 
+// movesRoles: the message can change who holds a role, the open flag of a batch, the
+// allowlist, or create an entity that a later message of the same tx may name.
+func movesRoles(m sdk.Msg) bool {
+	switch m.(type) {
+	case *basetypes.MsgUpdateClassAdmin, *basetypes.MsgUpdateClassIssuers, *basetypes.MsgUpdateProjectAdmin, *baskettypes.MsgUpdateCurator,
+		*basetypes.MsgSealBatch, *basetypes.MsgCreateClass, *basetypes.MsgCreateProject, *basetypes.MsgCreateBatch, *basetypes.MsgBridgeReceive,
+		*baskettypes.MsgCreate, *markettypes.MsgSell, *data.MsgDefineResolver,
+		*basetypes.MsgSetClassCreatorAllowlist, *basetypes.MsgAddClassCreator, *basetypes.MsgRemoveClassCreator:
+		return true
+	}
+	return false
+}
+
 func (c *C08) noteFormer(entity, who string) {
 	if c.former[entity] == nil {
 		c.former[entity] = map[string]bool{}
@@ -528,7 +541,23 @@ func (c *C08) AfterTx(w *World, t *TxCtx) {
 		return
 	}
 	if len(t.Msgs) != 1 {
-		return // role predicates are evaluated on the pre-state: single-message txs only
+		// Role predicates are evaluated on the pre-state. In a multi-message tx that is only
+		// meaningful when no message of the tx can itself move a role or create the entity
+		// another message needs; then every message's role is judged (frames are not).
+		for _, m := range t.Msgs {
+			if movesRoles(m) {
+				return
+			}
+		}
+		for i, m := range t.Msgs {
+			roleErr, _, judged := c.roleAndFrame(t, m, respAt(t, i))
+			if judged && roleErr != "" {
+				w.Violate("R1", "accepted-without-role/"+msgTypeName(m), "%s (message %d of a %d-message tx)", roleErr, i, len(t.Msgs))
+				return
+			}
+		}
+		w.Probe("c08_multi_msg_roles_judged")
+		return
 	}
 	m := t.Msgs[0]
 	roleErr, fr, judged := c.roleAndFrame(t, m, respAt(t, 0))
